@@ -810,9 +810,9 @@ def describe():
     return {
         "rule": "environments are drawn by a seeded PRNG: 1-4 library programs in different directories "
                 "(non-contiguous unsorted mode sets, 0-3 template parameters, scalar variables, loops, nested "
-                "includes to depth 3), a main program with 1-5 calls per included program, include lines in "
+                "includes to depth 3, chains up to depth 6 in one run of seven, parameters forwarded under permuted names), a main program with 1-5 calls per included program, include lines in "
                 "relative / ./ / non-normalised / absolute / repeated spellings, decoy files where a wrong "
-                "resolution rule would look, then 1-4 loads under different working directories and naming "
+                "resolution rule would look (in 15 % of the runs names contain glob characters and a pattern-matching sibling exists), then 1-4 loads under different working directories and naming "
                 "styles with optional rewrites/removals and file-read faults; distinct by plan digest; "
                 "non-trivial when there is at least one call site and (cwd differs from the main file's "
                 "directory, or nesting depth >= 2, or a subroutine is called at least twice)",
